@@ -25,7 +25,8 @@ class _:
 
     @staticmethod
     def requires(o):
-        return z3.And(o.header.is_none, o.scaffolds.is_none, o.bp_per_texel.is_none)  # the form used by the parsers: Assembly(name)
+        # the forms in use: Assembly(name) in the parsers and Assembly(name, header=[...]) in the FASTA indexer
+        return z3.And(o.scaffolds.is_none, o.bp_per_texel.is_none)
 
     modifies = staticmethod(lambda o: [("field", "Assembly", f, o.self) for f in ("name", "scaffolds", "header", "curated")]
                             + [("fresh-lists", STR), ("fresh-lists", TRef("Scaffold")), ("alloc",)])
@@ -33,8 +34,12 @@ class _:
     @staticmethod
     def ensures(o, n, res):
         s = n.self
-        return z3.And(s.name == o.name, s.scaffolds.len == 0, s.header.len == 0, s.scaffolds.z >= o.alloc, s.header.z >= o.alloc,
-                      s.scaffolds.z < n.alloc, s.header.z < n.alloc, s.curated == o.curated)
+        given = z3.And(z3.Not(o.header.is_none), o.header.val.len > 0)
+        return z3.And(s.name == o.name, s.scaffolds.len == 0, s.scaffolds.z >= o.alloc, s.scaffolds.z < n.alloc, s.curated == o.curated,
+                      z3.If(given, s.header.z == o.header.val.z, z3.And(s.header.len == 0, s.header.z >= o.alloc, s.header.z < n.alloc)))
+
+    # the lists an Assembly creates for itself start empty, with a window at 0
+    zero_based = staticmethod(lambda o, n, res: [(o.scaffolds.is_none, n.self.scaffolds), (o.header.is_none, n.self.header)])
 
 
 def _appended(a, b, x):
@@ -46,7 +51,7 @@ def _appended(a, b, x):
 class _:
     params = {"self": ASM, "txt": STR}
     result = NONE
-    modifies = staticmethod(lambda o: [("list", STR, o.self.header)])
+    modifies = staticmethod(lambda o: [("list-append", STR, o.self.header)])
     ensures = staticmethod(lambda o, n, res: _appended(o.self.header, n.self.header, o.txt))
 
 
@@ -54,7 +59,7 @@ class _:
 class _:
     params = {"self": ASM, "scffld": TRef("Scaffold")}
     result = NONE
-    modifies = staticmethod(lambda o: [("list", TRef("Scaffold"), o.self.scaffolds)])
+    modifies = staticmethod(lambda o: [("list-append", TRef("Scaffold"), o.self.scaffolds)])
     ensures = staticmethod(lambda o, n, res: _appended(o.self.scaffolds, n.self.scaffolds, o.scffld))
 
 
